@@ -12,7 +12,7 @@
 EXTENDS HttpWriter
 
 CONSTANTS MaxLen,        \* longest class string
-          MutA           \* "" | "lf-only" (seeded: _safe_header forgets CR) | "dollar-anchor"
+          MutA           \* "" | "lf-only" (seeded: _safe_header forgets CR) | "dollar-anchor" | "size-chars"
 
 (* ------------------------------------------------------------------------ *)
 VARIABLES pos, place, str
@@ -84,9 +84,17 @@ WireWith(p, mid) ==
 NFields(p) == IF InStart(p) THEN 2 ELSE 3
 LineOf(p) == IF InStart(p) THEN 1 ELSE 3
 
+\* positions inside a multipart body: the writer also declares a size for what it writes.
+\* seeded "size-chars": the header block is measured in characters, not in UTF-8 bytes
+InBody(p) == p \in {"part-name", "part-value", "form-name", "form-filename"}
+DeclaredSize(p, cls, enc, wire) ==
+    IF ~InBody(p) \/ wire = <<>> THEN -1
+    ELSE IF MutA = "size-chars" /\ enc = "raw" THEN Len(wire) - (Len(U8EncSeq(RepSeq(cls))) - Len(cls))
+    ELSE Len(wire)
 Event(p, cls, out, enc, wire) ==
     [out |-> out, wire |-> wire, sup |-> RepSeq(cls), enc |-> enc, line |-> LineOf(p),
-     pre |-> PreOf(p), post |-> PostOf(p), nfields |-> NFields(p), body |-> <<>>, unit |-> "head"]
+     pre |-> PreOf(p), post |-> PostOf(p), nfields |-> NFields(p), body |-> <<>>, unit |-> "head",
+     psize |-> DeclaredSize(p, cls, enc, wire)]
 
 TodayEvent(p, cls) ==
     IF Refused(p, cls) THEN Event(p, cls, "refused", TodayEnc(p), <<>>)
